@@ -125,31 +125,38 @@ def main():
         finally:
             sh("git -C /repo worktree remove --force %s" % wt)
             shutil.rmtree(wt, ignore_errors=True)
-    # (3) the checks
+    # (3) the checks, against a private worktree with the patch applied (VERIF_REPO), so that /repo stays free
     checks = [args.prop] + [c for c in args.checks.split(",") if c and c != args.prop]
-    rc, out = sh("git -C /repo status --porcelain")
-    if out.strip():
-        print("/repo is not clean, refusing")
-        return 2
-    rc, out = sh("git -C /repo apply %s" % patch)
+    wt = "/tmp/seedval/run-%s" % name
+    sh("git -C /repo worktree remove --force %s" % wt)
+    shutil.rmtree(wt, ignore_errors=True)
+    rc, out = sh("git -C /repo worktree add -q --detach %s HEAD" % wt)
     if rc != 0:
-        print("patch does not apply to /repo:", out)
-        return 1
+        print(out)
+        return 2
+    outdir = "/tmp/seedval/out-%s" % name
+    shutil.rmtree(outdir, ignore_errors=True)
     detected = {}
     try:
+        rc, out = sh("git apply %s" % patch, cwd=wt)
+        if rc != 0:
+            print("patch does not apply:", out)
+            return 1
+        env2 = "VERIF_REPO=%s VERIF_OUT=%s " % (wt, outdir)
         for c in checks:
             t0 = time.time()
-            cmd = "./check %s --tier quick" % c + (" --budget %g" % args.budget if args.budget else "")
+            cmd = env2 + "./check %s --tier quick" % c + (" --budget %g" % args.budget if args.budget else "")
             rc, out = sh(cmd, cwd=VERIF, timeout=3600)
             viol = [l for l in out.splitlines() if l.startswith("VIOLATION") or l.startswith("  oracle:") or l.startswith("  process crashed")]
             summary = [l for l in out.splitlines() if l.startswith("property=")]
-            detected[c] = {"rc": rc, "wall_s": round(time.time() - t0, 1), "lines": viol[:6], "summary": summary[:1]}
+            detected[c] = {"rc": rc, "wall_s": round(time.time() - t0, 1), "lines": [v.replace(outdir, "<out>") for v in viol[:6]], "summary": summary[:1]}
             print("check %s rc=%d %s" % (c, rc, " | ".join(v[:160] for v in viol[:3])))
             if rc not in (0, 1):
                 print(out[-1500:])
     finally:
-        sh("git -C /repo checkout -- .")
-        sh("rm -rf %s/replays" % VERIF)
+        sh("git -C /repo worktree remove --force %s" % wt)
+        shutil.rmtree(wt, ignore_errors=True)
+        shutil.rmtree(outdir, ignore_errors=True)
     meta["checks"] = detected
     meta["detected_by"] = [c for c, d in detected.items() if d["rc"] == 1]
     os.makedirs(dst, exist_ok=True)
